@@ -14,6 +14,8 @@ use std::collections::HashMap;
 
 const A: [u8; 4] = [10, 0, 0, 1];
 const B: [u8; 4] = [10, 0, 0, 2];
+/// a third station the harness plays itself: its fragments collide with A's identification numbers
+const C: [u8; 4] = [10, 0, 0, 3];
 
 pub struct Node {
     pub iface: Interface,
@@ -109,6 +111,8 @@ impl Proj {
             return json!({"from": from, "unparsed": true, "len": f.len()});
         };
         let plen = ip.l4_bytes.len();
+        // the sending station is told by the source address (station C shares the wire with A)
+        let from = if ip.src == C { 2 } else if ip.src == A { 0 } else if ip.src == B { 1 } else { from };
         let mut did: i64 = -1;
         if ip.frag_off == 0 && plen >= 12 {
             // UDP: payload starts at 8; ICMP echo: data starts at 8
@@ -130,7 +134,7 @@ impl Proj {
             let (size, sport, dport, is_icmp) = self.sizes[&(did as u32)];
             total = 8 + size as i64;
             if !is_icmp {
-                let (s, d) = if from == 0 { (A, B) } else { (B, A) };
+                let (s, d) = match from { 0 => (A, B), 2 => (C, B), _ => (B, A) };
                 let exp = expected_udp(did as u32, size, s, d, sport, dport);
                 for (i, b) in ip.l4_bytes.iter().enumerate() {
                     let k = ip.frag_off + i;
@@ -157,6 +161,30 @@ impl Proj {
                "did": did, "pd": pd, "total": total, "hcs": ip.hdr_csum_ok, "wf": ip.wf, "frag": ip.mf || ip.frag_off > 0,
                "src": addr_str(&ip.src), "dst": addr_str(&ip.dst)})
     }
+}
+
+/// Station C's datagram `did` for B, cut into fragments of `per` payload octets by the harness itself.
+fn craft_frags(ident: u16, did: u32, size: usize, port: u16, per: usize, eth: bool) -> Vec<Vec<u8>> {
+    let whole = ipv4_packet(C, B, 17, ident, 64, &udp_datagram(port, port, &dgram_payload(did, size)), true);
+    let l4 = &whole[20..];
+    let mut v = vec![];
+    let mut off = 0;
+    while off < l4.len() {
+        let n = per.min(l4.len() - off);
+        let last = off + n == l4.len();
+        let mut h = whole[..20].to_vec();
+        h[2..4].copy_from_slice(&((20 + n) as u16).to_be_bytes());
+        let fl = ((off / 8) as u16) | if last { 0 } else { 0x2000 };
+        h[6..8].copy_from_slice(&fl.to_be_bytes());
+        h[10] = 0;
+        h[11] = 0;
+        let c = csum(&h);
+        h[10..12].copy_from_slice(&c.to_be_bytes());
+        h.extend_from_slice(&l4[off..off + n]);
+        v.push(if eth { eth_frame([2, 0, 0, 0, 0, B[3]], [2, 0, 0, 0, 0, C[3]], 0x0800, &h) } else { h });
+        off += n;
+    }
+    v
 }
 
 fn build_consts() -> Value {
@@ -200,11 +228,12 @@ impl World {
     fn poll(&mut self, e: usize, frames: Vec<Vec<u8>>, egress_only: bool, t: &mut Trace) -> Option<Vec<Vec<u8>>> {
         let rxp: Vec<Value> = frames.iter().map(|f| self.proj.frame(1 - e, f)).collect();
         let n = if e == 0 { &mut self.a } else { &mut self.b };
+        let bp = n.dev.tx_budget.is_some();
         match n.poll(self.now, frames, egress_only) {
             Ok(out) => {
                 let pa = n.poll_at(self.now);
                 let outs: Vec<Value> = out.iter().map(|o| self.proj.frame(e, o)).collect();
-                t.ev(json!({"ev":"poll","ep":e,"now":self.now,"rx":rxp,"out":outs,"pa":pa,"eg":egress_only}));
+                t.ev(json!({"ev":"poll","ep":e,"now":self.now,"rx":rxp,"out":outs,"pa":pa,"eg":egress_only,"bp":bp}));
                 Some(out)
             }
             Err(m) => {
@@ -322,6 +351,9 @@ pub fn random(args: &Args) {
         let dup_pct = *rng.pick(&[0u64, 0, 10, 30]);
         let drop_pct = *rng.pick(&[0u64, 0, 0, 10]);
         let reorder = rng.chance(60);
+        // station C: once per run, a datagram of its own whose fragments carry the identification A is using right
+        // now and travel interleaved with A's (same destination, same protocol, different source)
+        let mut twin = mtu >= 100 && rng.chance(35);
         let mut steps = 0;
         loop {
             steps += 1;
@@ -382,6 +414,22 @@ pub fn random(args: &Args) {
                 if c < drop_pct {
                     t.ev(json!({"ev":"net","fate":"drop"}));
                     continue;
+                }
+                if twin && is_frag && !is_arp {
+                    twin = false;
+                    let o = if eth { 14 } else { 0 };
+                    let ident = u16::from_be_bytes([f[o + 4], f[o + 5]]);
+                    let did = 900_000 + run as u32;
+                    let per = (mtu - 20) & !7;
+                    let size = rng.range(per as u64, (fragbuf - 28) as u64) as usize;
+                    w.proj.sizes.insert(did, (size, 7001, 7001, false));
+                    let fr = craft_frags(ident, did, size, 7001, per, eth);
+                    let outs: Vec<Value> = fr.iter().map(|x| w.proj.frame(2, x)).collect();
+                    t.ev(json!({"ev":"api","ep":2,"now":w.now,"call":"send","kind":"udp","sock":1,"did":did,"size":size,"total":8+size,"ok":true}));
+                    t.ev(json!({"ev":"poll","ep":2,"now":w.now,"rx":[],"out":outs,"pa":-1,"eg":true}));
+                    for x in fr {
+                        inflight.push((w.now + rng.range(1, 40) as i64, x));
+                    }
                 }
                 let d = if reorder { rng.range(1, 40) as i64 } else { 5 };
                 if c < drop_pct + dup_pct {
